@@ -1,7 +1,7 @@
 (* Walk/Proofs.v — the C18 theorems, instantiated on the generated tables (Gen/WalkSchema.v). *)
 From Coq Require Import List Arith Bool Lia Permutation.
 From Verif Require Import Walk.Schema Walk.Model Walk.Lemmas Walk.Covers Walk.Trace Walk.NoPanic Walk.Visit
-     Gen.WalkSchema Walk.Harness.
+     Walk.Order Walk.Identity Walk.Prune Gen.WalkSchema Walk.Harness.
 Import ListNotations.
 
 (* The generated table covers the generated schema (finite check, re-done whenever T2's output changes). *)
@@ -56,7 +56,90 @@ Proof.
   eapply pwalk_in_nodes; [exact gen_covers|exact W|exact F|exact H].
 Qed.
 
+Lemma walk_parent_first_proof v0 t pre e post :
+  well_typed gen_spec t = true ->
+  fst (walk_p gen_spec V enter v0 t) = pre ++ e :: post -> e_k e = KEnter ->
+  forall a, In a (all_nodes gen_spec t) -> sprefix a (e_path e) ->
+    (exists e', In e' pre /\ e_k e' = KEnter /\ e_path e' = a) /\
+    (forall e', In e' pre -> e_k e' = KExit -> e_path e' <> a).
+Proof.
+  intros WT E K a Ha SP. destruct (well_typed_parts t WT) as [W F]. rewrite walk_no_panic_proof in E.
+  exact (pwalk_parent_first gen_spec gen_covers V enter t false [] v0 [] Orig W F pre e post E K a Ha SP).
+Qed.
+
+Lemma walk_prunes_exactly_proof v0 t :
+  well_typed gen_spec t = true ->
+  let evs := fst (walk_p gen_spec V enter v0 t) in
+  NoDup (entered V evs) /\
+  forall q, In q (entered V evs) <->
+            In q (all_nodes gen_spec t) /\
+            (forall a, In a (all_nodes gen_spec t) -> sprefix a q -> In a (exited V evs)).
+Proof.
+  intros WT evs. destruct (well_typed_parts t WT) as [W F]. unfold evs. rewrite walk_no_panic_proof. cbn [fst].
+  split; [now apply pwalk_entered_NoDup; [exact gen_covers|..]|].
+  intros q. split.
+  - intros H. apply entered_In in H. destruct H as [e [He [K EQ]]]. split.
+    + rewrite <- EQ. eapply pwalk_in_nodes; [exact gen_covers|exact W|exact F|exact He].
+    + intros a Ha SP. rewrite <- EQ in SP.
+      eapply pwalk_below_exited; [exact gen_covers|exact W|exact F|exact He|exact Ha|exact SP].
+  - intros [Hq ANC]. eapply pwalk_reached; [exact gen_covers|exact W|exact F|exact Hq|exact ANC].
+Qed.
+
+Lemma walk_identity_proof v0 t e :
+  In e (fst (walk_p gen_spec V enter v0 t)) ->
+  (exists c, subtree_at t (e_path e) = Some c /\ tree_ty c = e_ty e) /\
+  ((by_value gen_spec (e_ty e) = false /\ (e_fl e = Orig \/ e_fl e = Copy)) \/
+   (by_value gen_spec (e_ty e) = true /\ e_fl e = ByVal)).
+Proof.
+  intros H. rewrite walk_no_panic_proof in H. cbn [fst] in H. split.
+  - apply pwalk_identity in H. destruct H as [q [c [E1 [E2 E3]]]]. cbn [app] in E1. rewrite E1. now exists c.
+  - eapply pwalk_flavours; [|exact H]. now left.
+Qed.
+
+Lemma walk_copies_only_in_class_elements_proof v0 t e :
+  well_typed gen_spec t = true ->
+  In e (fst (walk_p gen_spec V enter v0 t)) -> e_fl e = Copy ->
+  exists q c, subtree_at t q = Some c /\ tree_ty c = T_ClassElement /\ prefix q (e_path e).
+Proof.
+  intros WT H CP. destruct (well_typed_parts t WT) as [W F]. rewrite walk_no_panic_proof in H. cbn [fst] in H.
+  destruct (pwalk_copy_origin gen_spec gen_covers V enter t false [] v0 [] Orig e W F H CP) as [X|[q [c [S1 [S2 S3]]]]];
+    [discriminate|].
+  exists q, c. split; [exact S1|]. split; [|exact S3].
+  (* ClassElement is the only wrapper type of the generated schema *)
+  unfold is_wrapper in S2. cbn [gen_spec sp_wrapper] in S2.
+  assert (L : forall n, nth n gen_wrapper false = true -> n = T_ClassElement).
+  { intros n. do 61 (destruct n as [|n]; [cbn; try discriminate; reflexivity|]). cbn. destruct n; discriminate. }
+  now apply L.
+Qed.
+
 End Gen.
+
+Lemma all_nodes_spec_proof t q :
+  well_typed gen_spec t = true ->
+  (In q (all_nodes gen_spec t) <->
+   exists c, subtree_at t q = Some c /\ is_wrapper gen_spec (tree_ty c) = false).
+Proof.
+  intros WT. destruct (well_typed_parts t WT) as [W _]. unfold all_nodes.
+  rewrite (nodes_from_spec gen_spec gen_covers t [] q W). cbn [app]. split.
+  - intros [r [c [-> H]]]. now exists c.
+  - intros [c H]. now exists q, c.
+Qed.
+
+(* stop-set visitors: the entered nodes are exactly the nodes without a stopped proper ancestor *)
+Definition nodes_not_below_stopped (stop : path -> bool) (t : tree) : list path :=
+  filter (not_below_stopped stop (all_nodes gen_spec t)) (all_nodes gen_spec t).
+
+Lemma walk_prunes_stop_set_proof (V : Type) (stop : path -> bool) (v0 : V) (t : tree) :
+  well_typed gen_spec t = true ->
+  Permutation (entered V (fst (walk_p gen_spec V (stop_enter V stop) v0 t))) (nodes_not_below_stopped stop t).
+Proof.
+  intros WT. destruct (well_typed_parts t WT) as [W F]. rewrite walk_no_panic_proof. cbn [fst].
+  apply NoDup_Permutation.
+  - now apply pwalk_entered_NoDup; [exact gen_covers|..].
+  - apply NoDup_filter. apply nodes_from_NoDup; [exact gen_covers|exact W].
+  - intros q. unfold nodes_not_below_stopped, walk. rewrite filter_In.
+    apply (stop_walk_entered_iff gen_spec gen_covers V stop t v0 q W F).
+Qed.
 
 (* ---- non-vacuity: a concrete well-typed tree with every kind of field ------------------------------------------ *)
 (* class A { #p = x; m(){} }  as Go holds it: a ClassDecl with a name and two class elements *)
@@ -95,6 +178,20 @@ Proof. vm_compute. reflexivity. Qed.
 
 Example ex_class_descends : forall h v p a fl, descend_all h v p a fl <> None.
 Proof. intros. discriminate. Qed.
+
+(* a visitor that returns nil at the first class element's field *)
+Example ex_class_stop_prunes :
+  length (nodes_not_below_stopped (fun p => match p with [(2, 0); (2, 0)] => true | _ => false end) ex_class) = 10.
+Proof. vm_compute. reflexivity. Qed.
+
+(* the finding: the Field of a class element is handed over as the address of a copy *)
+Lemma walk_hands_over_copies_witness :
+  exists t e, well_typed gen_spec t = true /\ In e (fst (walk_p gen_spec nat descend_all 0 t)) /\
+              e_k e = KEnter /\ e_ty e = T_Field /\ e_fl e = Copy.
+Proof.
+  exists ex_class, (Ev KEnter 1 [(F_ClassDecl_List, 0); (F_ClassElement_Field, 0)] T_Field Copy).
+  vm_compute. repeat split. right. right. right. now left.
+Qed.
 
 Example ex_class_trace_length : length (fst (walk_p gen_spec nat descend_all 0 ex_class)) = 26.
 Proof. vm_compute. reflexivity. Qed.
